@@ -146,6 +146,8 @@ def C08():
                          symbolic=["input bytes"], functions=["codec::rle::process_plane"], timeout=3000 if "2x2" in n else 900, mem_gb=28 if "2x2" in n else 10))
     jobs.append(Kani("c08_rle32_disp_2x2_tpl", "BitmapEvent::decompress, 32 bpp compressed 2x2, raw2/raw2 segmentation with symbolic values: Ok with exactly 16 bytes", bounds={"image": "2x2"},
                      symbolic=["16 value bytes"], functions=["core::event::BitmapEvent::decompress", "codec::rle::rle_32_decompress"], timeout=600, mem_gb=8))
+    jobs.append(Kani("c08_rle16_disp_2x2_tpl", "BitmapEvent::decompress, 16 bpp compressed 2x2, COLOR_RUN of 4 with a symbolic colour: Ok with exactly 16 bytes, every pixel the exactly widened colour", bounds={"image": "2x2"},
+                     symbolic=["colour"], functions=["core::event::BitmapEvent::decompress", "codec::rle::rle_16_decompress", "codec::rle::rgb565torgb32"], timeout=900, mem_gb=8))
     jobs.append(Kani("c08_rle32_total_1x1_n3", "rle_32_decompress on every 3-byte input for a 1x1 image: header byte checked, truncation is an error, no panic",
                      bounds={"image": "1x1", "input_bytes": 3}, symbolic=["input bytes"], functions=["codec::rle::rle_32_decompress", "codec::rle::process_plane"], timeout=900, mem_gb=12, tiers=("thorough",)))
     for n, q in DECOMP:
